@@ -2423,3 +2423,232 @@ def ch1_ln1(proj, rep):
             rep.ok('LN1', q, 'no conjugate on the rho path', m, fi.node, text=f'{q} linearity')
     rep.count('CH1_LN1.obligations', n)
     return n
+
+
+# ------------------------------------------------------------------------------------------------ RT1 / LM1 / SO2 / HE1
+RULE_RT1 = ('RT1: a buffer allocated as (a, b, ...) and filled along its first axis is brought to (b, a, ...) by a TRANSPOSE; `buf.reshape(b, a, -1)` has the right shape '
+            'but interleaves the rows of different batch items (identical only for a = 1 or b = 1).')
+RULE_LM1 = ('LM1: a memo kept in a local dict inside a loop (`if key not in D: D[key] = value`) is keyed on every attribute of the loop variable the value is computed '
+            'from: `value` built from `gate.hf0` and `gate.args` under a key made of `gate.args` only hands every gate that shares the placeholder the matrix of the '
+            'first gate, whatever its type.')
+RULE_SO2 = ('SO2: a parameter documented / asserted as a SET that becomes an ordered sequence (einsum legs, output axes) goes through sorted(): the iteration order '
+            'of a set of ints is ascending only while all elements are below 8.')
+RULE_HE1 = ('HE1: the trivialization maps do not normalise through library helpers with a hidden denominator clamp (`torch.nn.functional.normalize`, eps = 1e-12): '
+            'below the clamp the result no longer sums / norms to one and the torch and NumPy backends disagree.')
+
+
+def rt1(proj, rep, modules=None):
+    rep.rule('RT1', RULE_RT1)
+    n = 0
+    for fi in proj.iter_functions():
+        m = fi.module
+        if not _in_scope(m, modules):
+            continue
+        bufs = {}
+        for s in ast.walk(fi.node):
+            if isinstance(s, ast.Assign) and isinstance(s.targets[0], ast.Name) and isinstance(s.value, ast.Call) \
+                    and ast.unparse(s.value.func).split('.')[-1] in ('empty', 'zeros', 'ones') and s.value.args and isinstance(s.value.args[0], ast.Tuple) \
+                    and len(s.value.args[0].elts) >= 2:
+                bufs[s.targets[0].id] = [ast.unparse(e).replace(' ', '') for e in s.value.args[0].elts]
+        for c in ast.walk(fi.node):
+            if isinstance(c, ast.Call) and isinstance(c.func, ast.Attribute) and c.func.attr == 'reshape' and isinstance(c.func.value, ast.Name) and c.func.value.id in bufs \
+                    and len(c.args) >= 2:
+                shp = bufs[c.func.value.id]
+                a = [ast.unparse(x).replace(' ', '') for x in c.args]
+                n += 1
+                rep.touch(m)
+                if a[0] == shp[1] and a[1] == shp[0] and shp[0] != shp[1]:
+                    rep.violation('RT1', fi.qual, f'`{ast.unparse(c)}`: `{c.func.value.id}` was allocated as ({", ".join(shp)}); swapping its first two axes needs a transpose, this reshape '
+                                  f'interleaves rows of different items', m, c)
+                else:
+                    rep.ok('RT1', fi.qual, f'`{ast.unparse(c)[:50]}` does not swap the allocation axes', m, c)
+    rep.count('RT1.reshapes_of_allocated_buffers', n)
+    return n
+
+
+def lm1(proj, rep, modules=None):
+    rep.rule('LM1', RULE_LM1)
+    n = 0
+    for fi in proj.iter_functions():
+        m = fi.module
+        if not _in_scope(m, modules):
+            continue
+        for lp in ast.walk(fi.node):
+            if not isinstance(lp, ast.For):
+                continue
+            lvars = {y.id for y in ast.walk(lp.target) if isinstance(y, ast.Name)}
+            for g in ast.walk(lp):
+                if not (isinstance(g, ast.If) and isinstance(g.test, ast.Compare) and len(g.test.ops) == 1 and isinstance(g.test.ops[0], ast.NotIn)
+                        and isinstance(g.test.left, ast.Name) and isinstance(g.test.comparators[0], ast.Name)):
+                    continue
+                key, D = g.test.left.id, g.test.comparators[0].id
+                store = next((s for s in ast.walk(g) if isinstance(s, ast.Assign) and isinstance(s.targets[0], ast.Subscript) and isinstance(s.targets[0].value, ast.Name)
+                              and s.targets[0].value.id == D), None)
+                kdef = next((s for s in ast.walk(lp) if isinstance(s, ast.Assign) and isinstance(s.targets[0], ast.Name) and s.targets[0].id == key), None)
+                if store is None or kdef is None:
+                    continue
+                n += 1
+                rep.touch(m)
+
+                def roots(nodes):
+                    out = set()
+                    for nd in nodes:
+                        for y in ast.walk(nd):
+                            if isinstance(y, ast.Attribute):
+                                b = y
+                                chain = []
+                                while isinstance(b, ast.Attribute):
+                                    chain.append(b.attr)
+                                    b = b.value
+                                if isinstance(b, ast.Name) and b.id in lvars:
+                                    out.add((b.id, chain[-1]))
+                            elif isinstance(y, ast.Name) and y.id in lvars and not isinstance(getattr(y, '_parent', None), ast.Attribute):
+                                out.add((y.id, None))
+                    return out
+                kroots = roots([kdef.value])
+                # the stored value and the block-local definitions it is computed from
+                vnodes = [store.value]
+                names = {y.id for y in ast.walk(store.value) if isinstance(y, ast.Name)}
+                changed = True
+                while changed:
+                    changed = False
+                    for s2 in ast.walk(g):
+                        if isinstance(s2, ast.Assign) and s2 is not store and any(isinstance(t, ast.Name) and t.id in names for t2 in s2.targets for t in ast.walk(t2)) \
+                                and s2.value not in vnodes:
+                            vnodes.append(s2.value)
+                            names |= {y.id for y in ast.walk(s2.value) if isinstance(y, ast.Name)}
+                            changed = True
+                vroots = roots(vnodes)
+                whole = {v for v, a in kroots if a is None}
+                missing = sorted(f'{v}.{a}' if a else v for v, a in vroots if (v, a) not in kroots and v not in whole)
+                if missing:
+                    rep.violation('LM1', fi.qual, f'memo `{D}[{key}]`: the stored value is computed from {missing}, which the key `{ast.unparse(kdef.value)[:50]}` does not contain: '
+                                  f'items that agree on the key but differ there receive the first item\'s value', m, g)
+                else:
+                    rep.ok('LM1', fi.qual, f'memo `{D}[{key}]` keyed on everything the value reads from the loop variable', m, g)
+    rep.count('LM1.local_memos', n)
+    return n
+
+
+def so2_he1(proj, rep, modules=None):
+    rep.rule('SO2', RULE_SO2)
+    rep.rule('HE1', RULE_HE1)
+    n = 0
+    for fi in proj.iter_functions():
+        m = fi.module
+        if not _in_scope(m, modules):
+            continue
+        ann = {a.arg: (ast.unparse(a.annotation) if a.annotation is not None else '') for a in fi.node.args.posonlyargs + fi.node.args.args + fi.node.args.kwonlyargs}
+        for p, a in ann.items():
+            if not (a.startswith('set') or f'isinstance({p},set)' in ast.unparse(fi.node).replace(' ', '')):
+                continue
+            n += 1
+            rep.touch(m)
+            src = ast.unparse(fi.node).replace(' ', '')
+            has_sorted = f'sorted({p}' in src or f'sorted(set({p}' in src
+            conv = [c for c in ast.walk(fi.node) if isinstance(c, ast.Call) and ast.unparse(c.func).split('.')[-1] in ('list', 'tuple', 'hf_tuple_of_int', 'array', 'asarray')
+                    and c.args and isinstance(c.args[0], ast.Name) and c.args[0].id == p]
+            conv = [c for c in conv if not any(isinstance(p2, ast.Call) and isinstance(p2.func, ast.Name) and p2.func.id in ('sorted', 'set', 'frozenset', 'len')
+                                               for p2 in _ancestors(c, fi.node))]
+            if conv and not has_sorted:
+                rep.violation('SO2', fi.qual, f'`{ast.unparse(conv[0])[:50]}` turns the set parameter `{p}` into a sequence without sorted(): the order of the elements (hence of the '
+                              f'output axes) is arbitrary once an element is 8 or larger', m, conv[0])
+            else:
+                rep.ok('SO2', fi.qual, f'set parameter `{p}` is ordered by sorted() before use' if has_sorted else f'set parameter `{p}` never converted to a sequence', m, fi.node,
+                       text=f'{fi.qual}.{p} order')
+        for c in ast.walk(fi.node):
+            if isinstance(c, ast.Call) and ast.unparse(c.func).endswith('functional.normalize') or (isinstance(c, ast.Call) and ast.unparse(c.func) in ('F.normalize',)):
+                eps = next((k.value for k in c.keywords if k.arg == 'eps'), None)
+                if not (isinstance(eps, ast.Constant) and eps.value == 0):
+                    rep.touch(m)
+                    rep.violation('HE1', fi.qual, f'`{ast.unparse(c)[:60]}` clamps its denominator at eps = 1e-12: for tiny arguments the result is not normalised and differs from '
+                                  f'the NumPy branch', m, c)
+    rep.count('SO2.set_parameters', n)
+    return n
+
+
+# ------------------------------------------------------------------------------------------------ LEN1 / S9
+RULE_LEN1 = ('LEN1: a count over ALL elements of an array (`x.sum()`, `count_nonzero(x)` without axis) is compared with `x.size`, never with `len(x)`: len is the length '
+             'of the first axis, so for any array with two or more axes the "all ones" / "all set" test fires for the wrong arrays.')
+RULE_S9 = ('S9: in a seed-accepting method every use of the generator happens whatever the object went through before: a call that receives the generator is not '
+           'guarded by a condition that reads `self.<attr>` state written by earlier calls. Otherwise `solve(dm, seed=s)` twice on one object gives two results, and '
+           'the second depends on the seed of the first.')
+
+
+def len1(proj, rep, modules=None):
+    rep.rule('LEN1', RULE_LEN1)
+    n = 0
+    for fi in proj.iter_functions():
+        m = fi.module
+        if not _in_scope(m, modules):
+            continue
+        totals = {}
+        for s in ast.walk(fi.node):
+            if isinstance(s, ast.Assign) and isinstance(s.targets[0], ast.Name):
+                for c in ast.walk(s.value):
+                    if isinstance(c, ast.Call) and isinstance(c.func, ast.Attribute) and c.func.attr in ('sum', 'count_nonzero') and not any(k.arg in ('axis', 'dim') for k in c.keywords):
+                        arr = c.func.value if c.func.attr == 'sum' and not (isinstance(c.func.value, ast.Name) and c.func.value.id in ('np', 'numpy', 'torch')) else (c.args[0] if c.args else None)
+                        if isinstance(arr, ast.Name) and (c.func.attr != 'sum' or not c.args or arr is not c.func.value):
+                            totals[s.targets[0].id] = arr.id
+        for c in ast.walk(fi.node):
+            if not (isinstance(c, ast.Compare) and len(c.ops) == 1 and isinstance(c.ops[0], (ast.Eq, ast.NotEq))):
+                continue
+            a, b = c.left, c.comparators[0]
+            for tot, ln in ((a, b), (b, a)):
+                arr = None
+                if isinstance(tot, ast.Name) and tot.id in totals:
+                    arr = totals[tot.id]
+                elif isinstance(tot, ast.Call) and isinstance(tot.func, ast.Attribute) and tot.func.attr == 'sum' and isinstance(tot.func.value, ast.Name) and not tot.args \
+                        and not any(k.arg in ('axis', 'dim') for k in tot.keywords):
+                    arr = tot.func.value.id
+                if arr is None:
+                    continue
+                n += 1
+                if isinstance(ln, ast.Call) and isinstance(ln.func, ast.Name) and ln.func.id == 'len' and ln.args and isinstance(ln.args[0], ast.Name) and ln.args[0].id == arr:
+                    rep.touch(m)
+                    rep.violation('LEN1', fi.qual, f'`{ast.unparse(c)}`: a count over all elements of `{arr}` is compared with `len({arr})` (first axis only); right for 1-D arrays '
+                                  f'only - use `{arr}.size`', m, c)
+                else:
+                    rep.ok('LEN1', fi.qual, f'`{ast.unparse(c)[:50]}`', m, c)
+    rep.count('LEN1.total_count_comparisons', n)
+    return n
+
+
+def s9(proj, rep, modules=None):
+    rep.rule('S9', RULE_S9)
+    n = 0
+    for fi in proj.iter_functions():
+        m = fi.module
+        if not _in_scope(m, modules) or fi.cls is None:
+            continue
+        seedp = [p for p in fi.all_params if p in ('seed', 'rng_or_seed')]
+        if not seedp:
+            continue
+        # generator names: bound from get_numpy_rng(seed) / default_rng(seed)
+        gens = set(seedp)
+        for s in ast.walk(fi.node):
+            if isinstance(s, ast.Assign) and isinstance(s.targets[0], ast.Name) and any(isinstance(y, ast.Name) and y.id in gens for y in ast.walk(s.value)):
+                gens.add(s.targets[0].id)
+        for c in ast.walk(fi.node):
+            if not (isinstance(c, ast.Call) and any(isinstance(a, ast.Name) and a.id in gens for a in list(c.args) + [k.value for k in c.keywords])):
+                continue
+            if ast.unparse(c.func).split('.')[-1] in ('get_numpy_rng', 'get_random_rng', 'default_rng'):
+                continue
+            n += 1
+            rep.touch(m)
+            bad = None
+            for p in _ancestors(c, fi.node):
+                if isinstance(p, ast.If):
+                    names = {y.id for y in ast.walk(p.test) if isinstance(y, ast.Name)}
+                    exprs = [p.test]
+                    for nm in names:
+                        exprs += [v for v, st, pp in reaching_defs(fi.node, nm, p) if v != 'param' and isinstance(v, ast.AST)]
+                    if any(isinstance(y, ast.Attribute) and isinstance(y.value, ast.Name) and y.value.id == 'self' for e in exprs for y in ast.walk(e)):
+                        bad = p
+            if bad is not None:
+                rep.violation('S9', fi.qual, f'`{ast.unparse(c)[:50]}` uses the generator only when `{ast.unparse(bad.test)[:50]}`, a condition on object state left by earlier calls: the '
+                              f'result for a given seed depends on the call history', m, c)
+            else:
+                rep.ok('S9', fi.qual, f'`{ast.unparse(c)[:50]}` not gated by object state', m, c)
+    rep.count('S9.generator_uses_in_methods', n)
+    return n
